@@ -19,7 +19,10 @@ EXTRA = {"C01-3": ["C12"], "C10-3": ["C12"], "C07-1": ["C04"], "C17-1": ["C02"],
          "C14-11": ["C09", "C12"], "C03-11": ["C01"], "C03-12": ["C02", "C17"], "C07-10": ["C04"], "C07-11": ["C03"], "C02-11": ["C03"],
          "C01-14": ["C03"], "C01-15": ["C12"], "C02-14": ["C03"], "C09-13": ["C12"], "C12-15": ["C09"], "C13-15": ["C12"], "C15-15": ["C12"],
          "C18-13": ["C12"], "C19-13": ["C09", "C12"], "C19-14": ["C03"], "C19-15": ["C09"], "C15-13": ["C12"], "C06-15": ["C12", "C09"],
-         "C06-14": ["C12"], "C08-13": ["C12"], "C14-13": ["C12"], "C04-14": ["C01"], "C17-14": ["C03"], "C17-13": ["C02"]}
+         "C06-14": ["C12"], "C08-13": ["C12"], "C14-13": ["C12"], "C04-14": ["C01"], "C17-14": ["C03"], "C17-13": ["C02"],
+         "C01-18": ["C12", "C13"], "C07-18": ["C04"], "C08-16": ["C09"], "C09-17": ["C14"], "C13-16": ["C14"], "C13-17": ["C09", "C12"],
+         "C17-17": ["C16"], "C08-18": ["C01"], "C17-16": ["C01"], "C18-16": ["C01"], "C04-17": ["C09", "C12"], "C06-17": ["C09", "C12"],
+         "C01-17": ["C12"], "C10-17": ["C12"], "C18-18": ["C12"]}
 
 
 def run(name):
